@@ -598,7 +598,10 @@ def run_one(pid, cfg, tier, seed, base, repo, mir, binary, listed, t_setup, kani
     opts = {'tier': tier}
     ncpu = int(os.environ.get('VERIF_JOBS', '16'))
     with HPool(ncpu, (mir, repo, set(listed), seed, cfg.get('step_cap', 3_000_000), opts)) as pool:
-        res = explore_harnesses(pool, names, max_paths, seed, cfg.get('time_budget', {}).get(tier))
+        tb = cfg.get('time_budget', {}).get(tier)
+        if os.environ.get('VERIF_TIME_BUDGET'):
+            tb = float(os.environ['VERIF_TIME_BUDGET'])     # measuring aid: a truncated run is inconclusive (exit 2)
+        res = explore_harnesses(pool, names, max_paths, seed, tb)
     t_explore = time.time() - t0
     # ---- native replay -------------------------------------------------------------
     cap = cfg.get('witness_cap', {}).get(tier, 4000 if tier == 'quick' else 20000)
